@@ -48,6 +48,7 @@ func cmdCheck(id string, args []string) int {
 	slog := fs.String("solver-log", "", "write solver input to this file prefix")
 	noReplay := fs.Bool("no-replay", false, "skip native replays (debugging only)")
 	noEvidence := fs.Bool("no-evidence", false, "do not write the evidence file")
+	paramsF := fs.String("params", "", "run only the case with these params, e.g. 3,3,0")
 	fs.Parse(args)
 	seed, _ := strconv.ParseInt(os.Getenv("VERIF_SEED"), 10, 64)
 	t0 := time.Now()
@@ -122,6 +123,9 @@ func cmdCheck(id string, args []string) int {
 			ms = 5_000_000
 		}
 		for _, prm := range ps {
+			if *paramsF != "" && strings.Trim(strings.ReplaceAll(fmt.Sprint(prm), " ", ","), "[]") != *paramsF {
+				continue
+			}
 			if len(prm) != fn.Signature.Params().Len() {
 				fmt.Fprintf(os.Stderr, "BROKEN: harness %s takes %d params, case has %d\n", h.Func, fn.Signature.Params().Len(), len(prm))
 				return 2
